@@ -500,6 +500,7 @@ def check_C08(work, prop, tier, seed, t0):
     q = tier == "quick"
     bat = "search,iter,minmax,dump,rangec=6"
     st = coll_stages(tier, bat, n=(6 if q else 25), ln=(70 if q else 200))
+    st.append(Stage("suite", "suite", "repository-tests", "q" if q else "t", bat, max=(1500 if q else 0), proj=(3 if q else 6)))
     st.append(Stage("model", "collation/bytes/sv", "textq", "q", bat))
     st.append(Stage("model", "collation/runes/und", "textq", "q", bat))
     # byte-slice keys handed over in buffers the caller reuses afterwards: the tree must keep what was inserted
@@ -513,6 +514,7 @@ def check_C09(work, prop, tier, seed, t0):
     q = tier == "quick"
     bat = "search,iter,minmax,topk,range=%d,dump" % (20 if q else 60)
     st = comp_stages(tier, seed, bat, n=(5 if q else 15), ln=(60 if q else 150))
+    st.append(Stage("suite", "suite", "repository-tests", "q" if q else "t", bat, max=(1500 if q else 0), proj=(3 if q else 6)))
     return tree_check(work, prop, tier, seed, t0, st, PROP_INVS[prop],
                       ["SearchOK", "DeleteResOK", "AllOK", "BackwardOK", "RangeOK", "MinMaxOK", "WFOK", "SizeOK"], RULE_TREE,
                       model_props=[], extra_cov={"programs": (4 if q else 20)})
